@@ -14,7 +14,7 @@ def _shape_list(tier, prop):
     for n in widths:
         lst = list(shapes.seeds(n)) + list(shapes.grammar1(n))
         if quick:
-            if n in (8, 32):
+            if n == 8:
                 lst += shapes.grammar2(n, shapes.QUICK_OUTER, shapes.QUICK_INNER)
         else:
             if n in (4, 8, 32, 64):
@@ -44,7 +44,7 @@ def run_obligation(oid, params, tier):
         return kernel.run_obligation(oid, params, tier, prop)
     known = common.known_for(common.load_known(prop), oid)
     sr = astleg.ShapeRun(oid, params["tree"], prop, known,
-                         max_paths=1500 if tier == "quick" else 6000,
+                         max_paths=400 if tier == "quick" else 6000,
                          query_ms=20000 if tier == "quick" else 120000)
     return sr.run()
 
